@@ -4,6 +4,7 @@
 //! `connect<'a>(&'a RefCell<Terminal<'a, E>>, &'a RefCell<Terminal<'a, E>>)` wants. The whole line is parsed and
 //! index-checked before anything is built, so a line is either `BADLINE`/`NOIMPL` or a run.
 use crate::enc::*;
+use crate::script;
 use core::cell::RefCell;
 use rrtk::devices::*;
 use rrtk::*;
@@ -140,6 +141,17 @@ enum Op {
     O(usize),
     Ra,
     Oa,
+    /// `fs:<i>` / `fc:<i>`: the state / command slot of terminal i starts following its scripted getter
+    Fs(usize),
+    Fc(usize),
+    /// `nfs:<i>` / `nfc:<i>`: `stop_following`
+    Nfs(usize),
+    Nfc(usize),
+    /// `gs:<i>:<Output<Datum<State>>>` / `gc:<i>:<Output<Datum<Command>>>`: what that scripted getter returns from now on
+    Gs(usize, Output<Datum<State>, E>),
+    Gc(usize, Output<Datum<Command>, E>),
+    /// `tu:<i>`: `Updatable::update` of terminal i
+    Tu(usize),
 }
 fn p_index(t: &str, limit: usize) -> R<usize> {
     let i = p_usize(t)?;
@@ -161,6 +173,22 @@ fn p_op(t: &str, nterm: usize, ndev: usize) -> R<Op> {
     } else if let Some(r) = t.strip_prefix("sc:") {
         let (i, d) = r.split_once(':').ok_or(Bad)?;
         Ok(Op::Sc(p_index(i, nterm)?, Datum::<Command>::dec(d)?))
+    } else if let Some(r) = t.strip_prefix("fs:") {
+        Ok(Op::Fs(p_index(r, nterm)?))
+    } else if let Some(r) = t.strip_prefix("fc:") {
+        Ok(Op::Fc(p_index(r, nterm)?))
+    } else if let Some(r) = t.strip_prefix("nfs:") {
+        Ok(Op::Nfs(p_index(r, nterm)?))
+    } else if let Some(r) = t.strip_prefix("nfc:") {
+        Ok(Op::Nfc(p_index(r, nterm)?))
+    } else if let Some(r) = t.strip_prefix("gs:") {
+        let (i, d) = r.split_once(':').ok_or(Bad)?;
+        Ok(Op::Gs(p_index(i, nterm)?, Output::<Datum<State>, E>::dec(d)?))
+    } else if let Some(r) = t.strip_prefix("gc:") {
+        let (i, d) = r.split_once(':').ok_or(Bad)?;
+        Ok(Op::Gc(p_index(i, nterm)?, Output::<Datum<Command>, E>::dec(d)?))
+    } else if let Some(r) = t.strip_prefix("tu:") {
+        Ok(Op::Tu(p_index(r, nterm)?))
     } else if let Some(r) = t.strip_prefix("ut:") {
         Ok(Op::Ut(p_index(r, ndev)?))
     } else if let Some(r) = t.strip_prefix("u:") {
@@ -310,8 +338,39 @@ pub fn run(toks: &[&str], out: &mut Vec<String>) -> R<()> {
         build(s, &mut terms, &mut devs);
     }
 
+    // one scripted getter per terminal and slot (created up front; followed only on request)
+    let scr_s: Vec<_> = (0..nterm).map(|_| script::mk::<Datum<State>>(Ok(None))).collect();
+    let scr_c: Vec<_> = (0..nterm).map(|_| script::mk::<Datum<Command>>(Ok(None))).collect();
     for op in ops {
         match op {
+            Op::Fs(i) => {
+                <Terminal<E> as Settable<Datum<State>, E>>::follow(&mut *terms[i].borrow_mut(), script::as_dyn(&scr_s[i]));
+                out.push(dash());
+            }
+            Op::Fc(i) => {
+                <Terminal<E> as Settable<Datum<Command>, E>>::follow(&mut *terms[i].borrow_mut(), script::as_dyn(&scr_c[i]));
+                out.push(dash());
+            }
+            Op::Nfs(i) => {
+                <Terminal<E> as Settable<Datum<State>, E>>::stop_following(&mut *terms[i].borrow_mut());
+                out.push(dash());
+            }
+            Op::Nfc(i) => {
+                <Terminal<E> as Settable<Datum<Command>, E>>::stop_following(&mut *terms[i].borrow_mut());
+                out.push(dash());
+            }
+            Op::Gs(i, o) => {
+                script::set(&scr_s[i], o);
+                out.push(dash());
+            }
+            Op::Gc(i, o) => {
+                script::set(&scr_c[i], o);
+                out.push(dash());
+            }
+            Op::Tu(i) => {
+                let ret = terms[i].borrow_mut().update();
+                out.push(ret.enc());
+            }
             Op::C(i, j) => {
                 connect(terms[i], terms[j]);
                 out.push(dash());
